@@ -31,6 +31,15 @@ def run(chk):
                 extra.append(filelevel.Case(z, 2, codec, ops + [("c",)], "many-row-groups"))
     filelevel.run_cases(pair, extra, want_parse=False)
     cases += extra
+    # gzip pages whose uncompressed size is an exact multiple of the 32 KiB inflate window (4096 / 8192 int64 values
+    # per page), followed by further chunks
+    z = zs.get("three")
+    if z is not None:
+        for n in (4096, 8192):
+            recs = [("struct", [("leaf", zoolib.le(i * 2654435761 % (1 << 63), 8)), ("nil",) if i % 2 else ("some", ("leaf", b"s%d" % i)), ("list", [])]) for i in range(n)]
+            c = filelevel.Case(z, n, 2, [("a", r) for r in recs] + [("w",), ("a", recs[0]), ("w",), ("c",)], "gzip-window-multiple")
+            filelevel.run_cases(pair, [c], want_parse=False)
+            cases.append(c)
     # one page of more than 2 MiB (a string value of 2.3 MB, hardly compressible): sizes whose varint prefixes need four
     # bytes, reads that span hundreds of source buffers. The model is not run on it (the oracle needs no model).
     z = zs.get("three")
@@ -51,7 +60,7 @@ def run(chk):
     scheds += ["rand=%d" % (chk.seed * 100 + i) for i in range(12 if thorough else 5)] + ["rand=%d eof" % (chk.seed * 100 + 50 + i) for i in range(4 if thorough else 2)]
     ops, meta = [], []
     for c in cases:
-        for s in (scheds if c.tag != "huge-page" else ["frag=1", "frag=3", "frag=4096", "rand=7", "frag=2 eof"]):
+        for s in (scheds if c.tag not in ("huge-page", "gzip-window-multiple") else ["frag=1", "frag=3", "frag=7", "frag=13", "frag=4096", "rand=7", "frag=2 eof"]):
             ops.append("zoo-read %s %s %s" % (c.zoo.name, c.impl_file, s)); meta.append((c, s))
     res = common.chunked_parallel(pair.impl, ops, workers=8, chunk=100)
     tie_breaks, prop_fail = [], []
